@@ -81,6 +81,8 @@ pub struct WorkerOutcome {
     pub how: String,
     pub last_progress: String,
     pub harness_error: Option<String>,
+    /// violations announced (V lines) by the case that was running when the worker died
+    pub pre_violations: Vec<Violation>,
 }
 
 /// Run one worker subprocess over [from,to), feeding finished cases to `on_case`.
@@ -115,6 +117,7 @@ fn run_one_worker(
     let mut current: Option<u64> = None;
     let mut last_progress = String::new();
     let mut harness_error = None;
+    let mut pre_violations: Vec<Violation> = vec![];
     for line in reader.lines() {
         let Ok(line) = line else { break };
         if let Some(l) = registry.lock().unwrap().get_mut(&slot) {
@@ -125,6 +128,15 @@ fn run_one_worker(
             Some("B") => {
                 current = it.next().and_then(|c| c.parse().ok());
                 last_progress.clear();
+                pre_violations.clear();
+            }
+            Some("V") => {
+                let _case = it.next();
+                if let Some(v) = it.next().and_then(|js| serde_json::from_str::<Value>(js).ok()) {
+                    if let Some(v) = Violation::from_json(&v) {
+                        pre_violations.push(v);
+                    }
+                }
             }
             Some("P") => {
                 last_progress = line[2..].to_string();
@@ -137,6 +149,7 @@ fn run_one_worker(
                     Err(e) => harness_error = Some(format!("bad worker json: {e}")),
                 }
                 current = None;
+                pre_violations.clear();
             }
             Some("X") => {
                 harness_error = Some(line.clone());
@@ -166,6 +179,7 @@ fn run_one_worker(
         how,
         last_progress,
         harness_error,
+        pre_violations,
     }
 }
 
@@ -305,6 +319,17 @@ pub fn run_check(check: &'static dyn Check, tier: Tier, seed: u64, jobs: usize) 
                     break;
                 }
                 match out.died_in {
+                    Some(c) if out.last_progress.starts_with("minimise") && !out.pre_violations.is_empty() => {
+                        // the worker died while shrinking: keep the announced, un-minimised
+                        // violations; the death of a shrink candidate is not itself reported
+                        let mut a = agg.lock().unwrap();
+                        for v in out.pre_violations.iter() {
+                            a.violations.push((c, v.clone()));
+                        }
+                        a.cases_done += 1;
+                        *a.stats.entry("worker_deaths_while_minimising".into()).or_insert(0) += 1;
+                        from = c + 1;
+                    }
                     Some(c) => {
                         let sig = crash_sig(&out.how, &out.last_progress);
                         let v = Violation {
